@@ -38,7 +38,6 @@ struct open_ghost {
   int path_ok;
 } OG;
 static unsigned long otick(void) { __CPROVER_assume(OG.clock < (1ul << 40)); return ++OG.clock; }
-static ldb_filelock_t *g_lock_token;
 static ldb_versions_t g_versions;
 static ldb_comparator_t g_ucmp;
 struct ldb_wfile_s { int dummy; };
@@ -116,7 +115,7 @@ const char *ldb_strerror(int code) { return "e"; }
 
 /* ---------------------------------------------------------- LOCK release */
 int ldb_unlock_file(ldb_filelock_t *lock) {
-  __CPROVER_assert(lock == g_lock_token && KG.locked, "the LOCK released is the one this handle took");
+  __CPROVER_assert(lock == g_lock_obj_p && KG.locked, "the LOCK released is the one this handle took");
   __CPROVER_assert(OG.pool_destroy == 1, "the LOCK is released only after background work has stopped (no writer of this handle can still touch the directory)");
   KG.locked = 0; KG.unlock_calls++; OG.t_unlock = otick();
   return nondet_int();
@@ -134,6 +133,7 @@ int ldb_truncfile_create(const char *filename, ldb_wfile_t **file) {
   __CPROVER_assert(KG.locked && g_held, "the new log is created with the LOCK held");
   __CPROVER_assert(OG.allocs == 1 && OG.logname_calls == 1 && OG.logname_number == OG.alloc_number, "the new log file is named after the freshly allocated file number");
   __CPROVER_assert(OG.applies == 0, "the new log file is created before the MANIFEST edit that names it is applied");
+  __CPROVER_assert(g_db->mem == NULL && g_db->log == NULL && g_db->logfile == NULL, "a new log is created only if recovery did not hand back a reusable log and its memtable (they would be dropped and the reused log's records orphaned)");
   OG.creates++;
   if (rc != LDB_OK) return rc;
   OG.create_ok++; OG.t_create = otick(); *file = &g_newlogfile;
@@ -170,9 +170,9 @@ static void open_ghost_init(void) {
   KG.locked = 0; KG.lock_calls = 0; KG.unlock_calls = 0; NG.calls = 0; NG.cur_installed = 0;
   g_held = 0; g_locks = 0; g_unlocks = 0; g_gc_allowed = 0; g_gc_calls = 0; g_copied_pending = 0; g_added_versions = 0; g_removed_total = 0;
   g_db = NULL;
-  g_lock_token = malloc(1); g_logger_token = malloc(1); g_lru_token = malloc(1); g_tables_token = malloc(1); g_pool_token = malloc(1); g_batch_token = malloc(1);
+  g_lock_obj_p = malloc(1); g_logger_token = malloc(1); g_lru_token = malloc(1); g_tables_token = malloc(1); g_pool_token = malloc(1); g_batch_token = malloc(1);
   g_newmem = malloc(1); g_rlogfile = malloc(1); g_rlog = malloc(1); g_rmem = malloc(1);
-  __CPROVER_assume(g_lock_token && g_logger_token && g_lru_token && g_tables_token && g_pool_token && g_batch_token && g_newmem && g_rlogfile && g_rlog && g_rmem);
+  __CPROVER_assume(g_lock_obj_p && g_logger_token && g_lru_token && g_tables_token && g_pool_token && g_batch_token && g_newmem && g_rlogfile && g_rlog && g_rmem);
   __CPROVER_assume(g_versions.next_file_number < (1ull << 62));
 }
 
@@ -246,7 +246,7 @@ void h_close(void) {
   open_ghost_init();
   db = ldb_malloc(sizeof(ldb_t));                 /* registers the handle with the allocator model */
   db->versions = &g_versions; db->pool = g_pool_token; db->table_cache = g_tables_token; db->tmp_batch = g_batch_token;
-  db->db_lock = g_lock_token; KG.locked = 1; KG.lock_calls = 1;          /* an open handle holds the LOCK */
+  db->db_lock = g_lock_obj_p; KG.locked = 1; KG.lock_calls = 1;          /* an open handle holds the LOCK */
   db->options.info_log = g_logger_token; db->options.block_cache = g_lru_token;
   __CPROVER_assume((db->owns_info_log == 0 || db->owns_info_log == 1) && (db->owns_cache == 0 || db->owns_cache == 1));
   OG.logger_open = (unsigned)db->owns_info_log; OG.lru_create = (unsigned)db->owns_cache;
